@@ -37,8 +37,13 @@ def _calls_in(node):
 class Lin(ast.NodeVisitor):
     """linearise `_parse` in evaluation order: values before targets, statements in source order"""
 
-    def __init__(self, alias):
+    def __init__(self, alias, funcs=None, matcher_reads=()):
         self.alias = alias      # local name of the utils module
+        self.funcs = funcs or {}            # module-level functions of __init__: calls to them are followed
+        self.matcher_reads = list(matcher_reads)
+        self.stack = []
+        self.env = [{}]                     # parameter name -> string constant, per activation
+        self.parser_key = ""
         self.out = []
         self.cond = 0           # inside a branch that may not execute
         self.loop_sets = []     # globals installed inside a loop body (not definite after the loop)
@@ -108,6 +113,30 @@ class Lin(ast.NodeVisitor):
         else:
             self.generic_visit(n)
 
+    def visit_With(self, n):
+        locked = any(isinstance(i.context_expr, ast.Name) and i.context_expr.id == "parse_locker" for i in n.items)
+        for i in n.items:
+            self.visit(i.context_expr)
+        if locked:
+            self.out.append(("acq", ""))
+        for st in n.body:
+            self.visit(st)
+        if locked:
+            self.out.append(("rel", ""))
+
+    def visit_Name(self, n):
+        if n.id == "lookup_parsers":
+            # the parser cache: persistent shared state, read-modify-write
+            if not (self.out and self.out[-1] == ("touch", "lookup_parsers")):
+                self.out.append(("touch", "lookup_parsers"))
+
+    def _const(self, node):
+        if isinstance(node, ast.Constant) and isinstance(node.value, str):
+            return node.value
+        if isinstance(node, ast.Name):
+            return self.env[-1].get(node.id)
+        return None
+
     def visit_Call(self, n):
         for a in n.args:
             self.visit(a)
@@ -117,6 +146,34 @@ class Lin(ast.NodeVisitor):
         name = f.id if isinstance(f, ast.Name) else (f.attr if isinstance(f, ast.Attribute) else "?")
         if isinstance(f, ast.Attribute):
             self.visit(f.value)
+        if isinstance(f, ast.Name) and name == "_get_or_create_parser":
+            k = self._const(n.args[0]) if n.args else None
+            if k:
+                self.parser_key = k
+        if isinstance(f, ast.Name) and name in self.funcs and name not in self.stack and len(self.stack) < 6:
+            # follow the call: the program of an entry point does not depend on how its body is cut into helpers
+            fn = self.funcs[name]
+            params = [a.arg for a in fn.args.args]
+            env = {}
+            for p_, a in zip(params, n.args):
+                c = self._const(a)
+                if c is not None:
+                    env[p_] = c
+            for k in n.keywords:
+                c = self._const(k.value)
+                if c is not None and k.arg:
+                    env[k.arg] = c
+            self.stack.append(name)
+            self.env.append(env)
+            for st in _doc_stripped(fn.body):
+                self.visit(st)
+            self.env.pop()
+            self.stack.pop()
+            return
+        if name in ("parse_string", "scrub"):
+            for g in self.matcher_reads:
+                self.out.append(("use", g))
+            return
         self.out.append(("call", name))
 
 
@@ -145,6 +202,7 @@ def extract(X, repo):
     # which of them does any function of the package read (by bare name inside utils, or as utils.<g> elsewhere)?
     read_by = {}
     written_elsewhere = []
+    written_raw = []
     global_rebinds = []
     for mod, tr in trees.items():
         for f in ast.walk(tr):
@@ -159,63 +217,35 @@ def extract(X, repo):
                 if mod == "utils" and isinstance(n, ast.Name) and isinstance(n.ctx, ast.Load) and n.id in scoped:
                     read_by.setdefault(n.id, set()).add("%s.%s" % (mod, fname))
                 if isinstance(n, ast.Attribute) and isinstance(n.ctx, ast.Load) and n.attr in scoped and isinstance(n.value, ast.Name) and n.value.id in ("utils", "_utils"):
-                    if not (mod == "__init__" and fname == "_parse"):
+                    if not (mod == "__init__"):
                         read_by.setdefault(n.attr, set()).add("%s.%s" % (mod, fname))
                 if isinstance(n, ast.Assign):
                     for t in n.targets:
                         if isinstance(t, ast.Attribute) and isinstance(t.value, ast.Name) and t.value.id in ("utils", "_utils", "sql_parser", "keywords", "types", "formatting", "windows"):
                             item = "%s.%s:=%s.%s" % (mod, fname, t.value.id, t.attr)
-                            if not (mod == "__init__" and fname == "_parse") and item not in written_elsewhere:
-                                written_elsewhere.append(item)
+                            if (mod, fname, t.value.id, t.attr, item) not in written_raw:
+                                written_raw.append((mod, fname, t.value.id, t.attr, item))
     matcher_reads = [g for g in scoped if any(not r.startswith("formatting.") for r in read_by.get(g, ()))]
     format_reads = sorted({g for g in scoped for r in read_by.get(g, ()) if r.startswith("formatting.")})
-    # ---- the program of _parse
-    body_prog = []
+    # ---- entry points: the program of each, following calls into helpers of __init__ (so that cutting an entry point
+    #      or `_parse` into helper functions, or merging them, gives the same program)
     pf = funcs.get("_parse")
-    if pf is None:
-        X.problem("effects", "_parse not found")
-    else:
-        lin = Lin(alias)
-        for st in _doc_stripped(pf.body):
-            lin.visit(st)
-        for pr in lin.problems:
-            X.problem("effects", "_parse: " + pr)
-        for kind, name in lin.out:
-            if kind in ("set", "use"):
-                body_prog.append((kind, name))
-            elif name in ("parse_string", "scrub"):
-                for g in matcher_reads:
-                    body_prog.append(("use", g))
-    # ---- entry points
     entries = []
     for name in ENTRY:
         f = funcs.get(name)
         if f is None:
             X.problem("effects", "entry point %s not found" % name)
             continue
-        body = _doc_stripped(f.body)
+        lin = Lin(alias, {k: v for k, v in funcs.items() if k not in ENTRY}, matcher_reads)
+        for st in _doc_stripped(f.body):
+            lin.visit(st)
+        for pr in lin.problems:
+            X.problem("effects", "%s: %s" % (name, pr))
         prog = []
-        parser_key = ""
-        for st in body:
-            locked = isinstance(st, ast.With) and any(isinstance(i.context_expr, ast.Name) and i.context_expr.id == "parse_locker" for i in st.items)
-            if locked:
-                prog.append(("acq", ""))
-            for c in ast.walk(st):
-                if isinstance(c, ast.Call) and isinstance(c.func, ast.Name) and c.func.id == "_get_or_create_parser":
-                    if c.args and isinstance(c.args[0], ast.Constant):
-                        parser_key = str(c.args[0].value)
-            # calls in source order: the parser cache (and a parser build) is persistent shared state, `_parse` runs
-            # the per-call program
-            calls_here = sorted(((c.lineno, c.col_offset, c.func.id) for c in ast.walk(st)
-                                 if isinstance(c, ast.Call) and isinstance(c.func, ast.Name)), key=lambda x: (x[0], x[1]))
-            for _, _, cn in calls_here:
-                if cn == "_get_or_create_parser":
-                    prog.append(("touch", "lookup_parsers"))
-                elif cn == "_parse":
-                    prog += body_prog
-            if locked:
-                prog.append(("rel", ""))
-        entries.append({"name": name, "parser": parser_key, "program": prog})
+        for k, g in lin.out:
+            if k in ("acq", "rel", "set", "use", "touch") and not (k == "touch" and prog and prog[-1] == (k, g)):
+                prog.append((k, g))
+        entries.append({"name": name, "parser": lin.parser_key, "program": prog})
     # ---- cache key
     key_parts = []
     gf = funcs.get("_get_or_create_parser")
@@ -227,16 +257,78 @@ def extract(X, repo):
                 kp = [getattr(a, "id", "?"), getattr(b, "id", "?")]
                 if kp not in key_parts:
                     key_parts.append(kp)
-    # ---- callers of the helpers (anywhere in the package)
-    callers = []
+    # ---- which functions only ever run under `parse_locker`: every call site in the package is lexically inside
+    #      `with parse_locker:` or inside a function that itself only runs under the lock (least fixed point)
+    def locked_node_ids(fn):
+        ids = set()
+        for w in ast.walk(fn):
+            if isinstance(w, ast.With) and any(isinstance(i.context_expr, ast.Name) and i.context_expr.id == "parse_locker" for i in w.items):
+                for n in ast.walk(w):
+                    ids.add(id(n))
+        return ids
+
+    all_funcs = []      # (module, FunctionDef)
     for mod, tr in trees.items():
         for f in ast.walk(tr):
             if isinstance(f, ast.FunctionDef):
-                for cn in _calls_in(f):
-                    if cn in HELPERS:
-                        item = "%s.%s->%s" % (mod, f.name, cn)
-                        if item not in callers:
-                            callers.append(item)
+                all_funcs.append((mod, f))
+    sites = {}          # callee name -> [(caller module, caller name, lexically locked)]
+    for mod, f in all_funcs:
+        lk = locked_node_ids(f)
+        for n in ast.walk(f):
+            if isinstance(n, ast.Call):
+                cn = n.func.id if isinstance(n.func, ast.Name) else (n.func.attr if isinstance(n.func, ast.Attribute) else None)
+                if cn:
+                    sites.setdefault(cn, []).append((mod, f.name, id(n) in lk))
+    init_names = set(funcs)
+    protected = set()
+    changed = True
+    while changed:
+        changed = False
+        for fname in init_names:
+            if fname in protected or fname in ENTRY:
+                continue
+            ss = sites.get(fname, [])
+            if ss and all(lkd or (m == "__init__" and c in protected) for m, c, lkd in ss):
+                protected.add(fname)
+                changed = True
+    # functions of __init__ that handle the state the lock protects (directly or through what they call)
+    def sensitive(fname, seen=()):
+        fn = funcs.get(fname)
+        if fn is None or fname in seen:
+            return False
+        for n in ast.walk(fn):
+            if isinstance(n, ast.Name) and n.id == "lookup_parsers":
+                return True
+            if isinstance(n, ast.Attribute) and isinstance(n.value, ast.Name) and n.value.id == alias and n.attr in scoped:
+                return True
+            if isinstance(n, ast.Call):
+                cn = n.func.id if isinstance(n.func, ast.Name) else (n.func.attr if isinstance(n.func, ast.Attribute) else None)
+                if cn in ("parse_string", "scrub"):
+                    return True
+                if isinstance(n.func, ast.Name) and cn in funcs and sensitive(cn, seen + (fname,)):
+                    return True
+        return False
+
+    # installs of the parse-scoped globals by helpers of __init__ that only run under the lock are the per-call
+    # installs (they are in the entry programs); every other cross-module write is listed
+    for mod, fname, tmod, attr, item in written_raw:
+        if mod == "__init__" and fname in protected and tmod == alias and attr in scoped:
+            continue
+        if item not in written_elsewhere:
+            written_elsewhere.append(item)
+    # ---- calls of lock-sensitive helpers that are NOT known to run under the lock (the entry points' own calls are
+    #      judged by `lock_covers` on their programs)
+    callers = []
+    for fname in sorted(init_names):
+        if fname in ENTRY or not sensitive(fname):
+            continue
+        for m, c, lkd in sites.get(fname, []):
+            if lkd or (m == "__init__" and c in protected):
+                continue
+            item = "%s.%s->%s" % (m, c, fname)
+            if item not in callers:
+                callers.append(item)
     # ---- ownership facts (C17): what `scrub` returns for an empty dict, what `_parse` stores into NULL slots
     empty_dict = "?"
     ut = trees.get("utils")
@@ -257,8 +349,8 @@ def extract(X, repo):
                             else:
                                 empty_dict = "other:" + ast.unparse(v)
     null_slot = "?"
-    if pf is not None:
-        for n in ast.walk(pf):
+    for fn_ in funcs.values():        # wherever in __init__ the loop over the recorded slots lives
+        for n in ast.walk(fn_):
             if isinstance(n, ast.For) and "null_locations" in ast.unparse(n.iter):
                 for st in n.body:
                     if isinstance(st, ast.Assign) and isinstance(st.targets[0], ast.Subscript):
@@ -280,7 +372,7 @@ def extract(X, repo):
                     recv = ast.unparse(n.func.value)
                     if n.func.attr == "parse" and recv in ("ast", "json"):
                         continue
-                    under = id(n) in locked_nodes or (mod == "__init__" and f.name in HELPERS)
+                    under = id(n) in locked_nodes or (mod == "__init__" and f.name in protected)
                     engine_calls.append(("%s.%s:%s.%s" % (mod, f.name, recv, n.func.attr), under))
     X.data["effects"] = {
         "engine_calls": sorted(set(engine_calls)),
@@ -322,7 +414,7 @@ def gen_lean(X, lean_str):
     lines.append("/-- the subscripts under which `_get_or_create_parser` caches a parser -/")
     lines.append("def cacheKey : List (List String) := [%s]" % ", ".join("[%s]" % ", ".join(lean_str(x) for x in kp) for kp in e.get("cache_key", [])))
     lines.append("")
-    lines.append("/-- every call of `_parse` / `_get_or_create_parser` in the package -/")
+    lines.append("/-- calls of lock-sensitive helpers of `__init__` (functions that install / read the parse-scoped globals, touch the parser cache or run the engine) from a place that is not known to run under `parse_locker`; (caller, callee) -/")
     lines.append("def helperCallers : List (String × String) := [%s]" % ", ".join(
         "(%s, %s)" % (lean_str(x.split("->")[0]), lean_str(x.split("->")[1])) for x in e.get("callers", [])))
     lines.append("")
